@@ -168,36 +168,39 @@ example : (ctor mediaEnv 100 0 (.lst [tIdent]) ⟨false, [], []⟩).out = .ok tr
     (ctor mediaEnv 100 0 (.lst [tIdent]) ⟨false, [tFoo], []⟩).out ≠
       (ctor mediaEnv 100 0 (.lst [tIdent]) ⟨false, [], []⟩).out := by decide +kernel
 
-/-! ## T12.1 — mode, preferences, serializer, profiles are restored -/
+/-! ## T12.1 — mode, preferences, serializer, profiles, parser objects are restored -/
 
 /-- T12.1 `restored`. Every library call — every entry point of `CSSParser` and the module-level helpers, any
 direct DOM call, `csscombine`, serialisation — with ANY body script (log calls, @imports with a fetcher that
 returns, returns nothing, raises a swallowed or a propagating exception and meanwhile calls the library itself,
-production parser call trees) and ANY input fault (undecodable bytes, missing file), whether it returns or
-raises, leaves the error mode, the serializer object, every preference and the profile registry as they were. -/
+production parser call trees), ANY per-call `validate` argument and ANY input fault (undecodable bytes, missing
+file), whether it returns or raises, leaves the error mode, the serializer object, every preference, the profile
+registry and every field of every `CSSParser` object as they were. -/
 theorem restored (env : Env) (fuel : Nat) (s : Step) (g : G) (hq : quiet s = true) :
     (runStep env fuel s g).g.vis = g.vis :=
-  (runStep_kept env fuel s g hq).1
+  runStep_kept env fuel s g hq
 
 /-- the `finally` of `__parseSetting`, at full strength: even if the body is NOT quiet — a fetcher or a log
 handler assigns `cssutils.log.raiseExceptions` during the parse — the mode found at the start of the call is
 the mode after the call, returning or raising (fixes 0bb31e0 and 13b9223) -/
-theorem parse_restores_mode_whatever_happens (env : Env) (fuel : Nat) (p : Parser) (inp : Input)
+theorem parse_restores_mode_whatever_happens (env : Env) (fuel : Nat) (p : PRef) (v : Option Bool) (inp : Input)
     (body : List Step) (g : G) :
-    (runStep env fuel (.parseString p inp body) g).g.raising = g.raising ∧
-    (runStep env fuel (.parseStyle p inp body) g).g.raising = g.raising ∧
-    (∀ found, (runStep env fuel (.parseFile p found inp body) g).g.raising = g.raising) := by
+    (runStep env fuel (.parseString p v inp body) g).g.raising = g.raising ∧
+    (runStep env fuel (.parseStyle p v inp body) g).g.raising = g.raising ∧
+    (∀ found, (runStep env fuel (.parseFile p v found inp body) g).g.raising = g.raising) := by
   refine ⟨by simp [runStep, withParseSetting], by simp [runStep, withParseSetting], ?_⟩
   intro found
   cases found <;> simp [runStep, withParseSetting]
 
 /-- while a sheet is parsed the user's fetcher sees the PARSER's mode; `parseUrl` fetches before the mode is
 switched, so there the fetcher sees the global mode -/
-theorem mode_seen_by_fetcher (env : Env) (fuel : Nat) (p : Parser) (res : FetchRes) (sub body : List Step) (g : G) :
-    (runStep env fuel (.parseString p .str (.imp [] res sub :: body)) g).obs.head? = some (.seen p.raising) ∧
-    (runStep env fuel (.parseUrl p [] res .str body) g).obs.head? = some (.seen g.raising) := by
+theorem mode_seen_by_fetcher (env : Env) (fuel : Nat) (p : PRef) (v : Option Bool) (res : FetchRes)
+    (sub body : List Step) (g : G) :
+    (runStep env fuel (.parseString p v .str (.imp [] res sub :: body)) g).obs.head? = some (.seen (g.parser p).raising) ∧
+    (runStep env fuel (.parseUrl p v [] res .str body) g).obs.head? = some (.seen g.raising) := by
   constructor
   · simp only [runStep, withParseSetting, decode, runSteps]
+    apply seqR_head
     apply seqR_head
     apply importTwice_head
     apply seqR_head
@@ -208,20 +211,42 @@ theorem mode_seen_by_fetcher (env : Env) (fuel : Nat) (p : Parser) (res : FetchR
 
 /-- a parser created in raising mode raises on the first log call of the body, a default parser never does,
 and a direct DOM call follows the global mode -/
-theorem who_raises (env : Env) (fuel : Nat) (g : G) (rest : List Step) :
-    (runStep env fuel (.parseString ⟨true⟩ .str (.log false :: rest)) g).res = .error .dom ∧
-    (runStep env fuel (.parseString ⟨false⟩ .str [.log false]) g).res = .ok () ∧
+theorem who_raises (env : Env) (fuel : Nat) (g : G) (v : Option Bool) (rest : List Step) :
+    (runStep env fuel (.parseString (.fresh ⟨true, true⟩) v .str (.log false :: rest)) g).res = .error .dom ∧
+    (runStep env fuel (.parseString (.fresh ⟨false, true⟩) v .str [.log false]) g).res = .ok () ∧
     (runStep env fuel (.direct (.log false :: rest)) { g with raising := true }).res = .error .dom := by
-  simp [runStep, runSteps, withParseSetting, decode, seqR, doLog]
+  simp [runStep, runSteps, withParseSetting, decode, seqR, doLog, G.parser]
+
+/-- the per-call `validate` argument is used for this call and nowhere else: what an entry point returns is
+validating iff the argument says so, or — without the argument — iff the parser object was created so; and
+(by `restored`) the parser object is the same afterwards, so an earlier `validate=False` cannot show later -/
+theorem validate_argument_is_per_call (env : Env) (fuel : Nat) (p : PRef) (v : Option Bool) (inp : Input)
+    (body : List Step) (g : G) (hok : (runStep env fuel (.parseStyle p v inp body) g).res = .ok ()) :
+    (runStep env fuel (.parseStyle p v inp body) g).obs.getLast? = some (.validating (v.getD (g.parser p).validate)) ∧
+    (quietL body = true →
+      (runStep env fuel (.parseStyle p v inp body) g).g.parsers = g.parsers) := by
+  constructor
+  · simp only [runStep, withParseSetting, decode] at hok ⊢
+    cases inp <;> simp only [] at hok ⊢
+    all_goals first
+      | (simp at hok; done)
+      | (unfold seqR at hok ⊢
+         split at hok
+         · simp at hok
+         · simp)
+  · intro hq
+    have := runStep_kept env fuel (.parseStyle p v inp body) g (by simpa [quiet] using hq)
+    simp only [Kept, G.vis, Vis.mk.injEq] at this
+    exact this.2.2.2.2.2
 
 /-- `csscombine`, full statement: `quiet` for `Step.combine` demands that the serialisation phase cannot
 raise (`serBody.all calm`). The sources have no raising statement and no log call in serialize.py
 (`sites_as_modelled`), and every fault the property lists happens before the swap, so `restored` covers them.
 What is NOT covered — and is false, the swap is not protected by `try/finally` (script.py:365-371): -/
 theorem csscombine_unprotected_swap (env : Env) (fuel : Nat) (g : G) :
-    (runStep env fuel (.combine (.parseString ⟨false⟩ .str []) [] [.log false]) { g with raising := true }).g.ser.id
-      = g.nextSer := by
-  simp [runStep, runSteps, withParseSetting, decode, seqR, doLog]
+    (runStep env fuel (.combine (.parseString (.fresh ⟨false, true⟩) none .str []) [] [.log false])
+      { g with raising := true }).g.ser.id = g.nextSer := by
+  simp [runStep, runSteps, withParseSetting, decode, seqR, doLog, G.parser]
 
 /-! ## T12.2 — top level -/
 
@@ -244,44 +269,66 @@ theorem noninterference (env : Env) (fuel : Nat) (s : Step) (g g' : G) (h : Agre
     Agree (runStep env fuel s g).g (runStep env fuel s g').g :=
   runStep_sim env fuel s g g' h
 
-/-- T12.3 `history_independent`, guarded by the known finding C12-indent-specificities (no
-`prefs.indentSpecificities = True` in the history, see `indent_specificities_depends_on_history` below).
-After ANY history of library calls (each with any body, any fault, returning or raising) mixed with explicit
-settings, a further call `x` behaves exactly as after the explicit settings alone. -/
-theorem history_independent_partial (env : Env) (hwf : wfEnv env = true) (fuel : Nat) (h : List Step) (x : Step) (g : G)
+/-- T12.3 `history_independent`. After ANY history of library calls (each with any body, any per-call
+arguments, any fault, returning or raising, on long-lived or fresh parser objects) mixed with explicit
+settings, a further call `x` behaves exactly as after the explicit settings alone. (Unguarded since the
+serializer keeps the `indentSpecificities` bookkeeping for one sheet only.) -/
+theorem history_independent (env : Env) (hwf : wfEnv env = true) (fuel : Nat) (h : List Step) (x : Step) (g : G)
     (hq : ∀ s ∈ h, s.isExplicit = true ∨ (quiet s = true ∧ topOK env s = true))
-    (hn : ∀ s ∈ h, s ≠ .setIndent true)
-    (hs : g.saved = []) (hi : g.ser.indentSpec = false)
+    (hs : g.saved = [])
     (ha : ∀ o ∈ (runHistory env fuel h g).2, hasArt o.2 = false) :
     (runStep env fuel x (runHistory env fuel h g).1).res = (runStep env fuel x (explicitOnly env fuel h g)).res ∧
     (runStep env fuel x (runHistory env fuel h g).1).obs = (runStep env fuel x (explicitOnly env fuel h g)).obs := by
-  have hag := history_agree env hwf fuel h g g hq hn (Agree.refl g) hs hi ha
+  have hag := history_agree env hwf fuel h g g hq (Agree.refl g) hs ha
   have := runStep_sim env fuel x _ _ hag
   exact ⟨this.1, this.2.1⟩
 
 /-- parser objects are reusable: the second use of the same parser (same arguments, same body) gives the
 result of the first -/
 theorem parser_reusable (env : Env) (hwf : wfEnv env = true) (fuel : Nat) (s : Step) (g : G)
-    (hq : quiet s = true) (ht : topOK env s = true) (hs : g.saved = []) (hi : g.ser.indentSpec = false)
+    (hq : quiet s = true) (ht : topOK env s = true) (hs : g.saved = [])
     (ha : hasArt (runStep env fuel s g).obs = false) :
     (runStep env fuel s (runStep env fuel s g).g).res = (runStep env fuel s g).res ∧
     (runStep env fuel s (runStep env fuel s g).g).obs = (runStep env fuel s g).obs := by
   have hk := runStep_kept env fuel s g hq
   have hsv := runStep_saved env hwf fuel s g ht hs ha
-  have := runStep_sim env fuel s _ _ (Agree.of_kept hk hs hsv hi)
+  have := runStep_sim env fuel s _ _ (Agree.of_kept hk hs hsv)
+  exact ⟨this.1, this.2.1⟩
+
+/-- … also after OTHER calls on the same object with other per-call arguments: a call `s` on a parser that has
+served any quiet history `h` meanwhile gives what it gives on the untouched process -/
+theorem parser_reusable_after_other_calls (env : Env) (hwf : wfEnv env = true) (fuel : Nat) (h : List Step) (s : Step)
+    (g : G) (hq : ∀ x ∈ h, quiet x = true ∧ topOK env x = true) (hs : g.saved = [])
+    (ha : ∀ o ∈ (runHistory env fuel h g).2, hasArt o.2 = false) :
+    (runStep env fuel s (runHistory env fuel h g).1).res = (runStep env fuel s g).res ∧
+    (runStep env fuel s (runHistory env fuel h g).1).obs = (runStep env fuel s g).obs := by
+  have hne : ∀ x ∈ h, x.isExplicit = false := by
+    intro x hx
+    have := (hq x hx).1
+    cases x <;> simp_all [Step.isExplicit, quiet]
+  have h1 := history_agree env hwf fuel h g g (fun x hx => Or.inr (hq x hx)) (Agree.refl g) hs ha
+  have h2 : ∀ (l : List Step) (g : G), (∀ x ∈ l, x.isExplicit = false) → explicitOnly env fuel l g = g := by
+    intro l
+    induction l with
+    | nil => intro g _; rfl
+    | cons a as ih =>
+      intro g hl
+      simp only [explicitOnly, hl a List.mem_cons_self, Bool.false_eq_true, if_false]
+      exact ih g fun x hx => hl x (List.mem_cons_of_mem _ hx)
+  rw [h2 h g hne] at h1
+  have := runStep_sim env fuel s _ _ h1
   exact ⟨this.1, this.2.1⟩
 
 /-- a history without any explicit setting ends where it started (up to what nobody reads) -/
 theorem quiet_history_returns (env : Env) (hwf : wfEnv env = true) (fuel : Nat) (h : List Step) (g : G)
-    (hq : ∀ s ∈ h, quiet s = true ∧ topOK env s = true) (hs : g.saved = []) (hi : g.ser.indentSpec = false)
+    (hq : ∀ s ∈ h, quiet s = true ∧ topOK env s = true) (hs : g.saved = [])
     (ha : ∀ o ∈ (runHistory env fuel h g).2, hasArt o.2 = false) :
     Agree (runHistory env fuel h g).1 g := by
   have hne : ∀ s ∈ h, s.isExplicit = false := by
     intro s hs'
     have := (hq s hs').1
     cases s <;> simp_all [Step.isExplicit, quiet]
-  have h1 := history_agree env hwf fuel h g g (fun s hs' => Or.inr (hq s hs'))
-    (fun s hs' hc => by have := (hq s hs').1; rw [hc] at this; simp [quiet] at this) (Agree.refl g) hs hi ha
+  have h1 := history_agree env hwf fuel h g g (fun s hs' => Or.inr (hq s hs')) (Agree.refl g) hs ha
   have h2 : ∀ (l : List Step) (g : G), (∀ s ∈ l, s.isExplicit = false) → explicitOnly env fuel l g = g := by
     intro l
     induction l with
@@ -293,35 +340,35 @@ theorem quiet_history_returns (env : Env) (hwf : wfEnv env = true) (fuel : Nat) 
   rw [h2 h g hne] at h1
   exact h1
 
-/-! ## known finding C12-indent-specificities (serialize.py:336-337, 770-787, 815)
+/-! ## `prefs.indentSpecificities` (serialize.py; finding C12-indent-specificities, fixed)
 
-With the EXPERIMENTAL preference `indentSpecificities` the serializer keeps `_selectors` / `_selectorlevel`
-from one call to the next and never resets them: the text a style rule serialises to depends on which rules
-were serialised earlier in the process. The model has the code's behaviour, so the negation of the unguarded
-T12.3 is a theorem of the model at the witness (`a.x{y:1}` then `a.x.y{q:1}`). -/
+The serializer used to keep `_selectors` / `_selectorlevel` from one call to the next. Since the fix
+"indentSpecificities relates the rules of one sheet only" `do_CSSStyleSheet` starts from nothing and restores
+the outer values, which is what `Step.serialize` does now. -/
 
 def ruleA : SelRec := ⟨[1], [[0, 0, 1, 1]]⟩      -- a.x
 def ruleB : SelRec := ⟨[1], [[0, 0, 2, 1]]⟩      -- a.x.y
 
-/-- serialised alone `a.x.y{…}` is not indented; after `a.x{…}` was serialised earlier it is indented one level -/
-theorem indent_specificities_depends_on_history (env : Env) (fuel : Nat) (g : G)
-    (h0 : g.ser = ⟨0, [], true, [], 0⟩) :
+/-- serialising changes nothing at all in the process state, whatever the preference says -/
+theorem serialize_is_stateless (env : Env) (fuel : Nat) (rules : List SelRec) (g : G) :
+    (runStep env fuel (.serialize rules) g).g = g := by
+  simp only [runStep]
+
+/-- the witness of the former finding: `a.x.y{…}` alone is not indented, also after `a.x{…}` was serialised in
+an earlier call; inside ONE sheet the preference still does what it is for -/
+theorem indent_specificities_is_per_sheet (env : Env) (fuel : Nat) (g : G) (h0 : g.ser = ⟨0, [], true⟩) :
     (runStep env fuel (.serialize [ruleB]) g).obs = [.levels [0]] ∧
-    (runStep env fuel (.serialize [ruleB]) (runStep env fuel (.serialize [ruleA]) g).g).obs = [.levels [1]] := by
+    (runStep env fuel (.serialize [ruleB]) (runStep env fuel (.serialize [ruleA]) g).g).obs = [.levels [0]] ∧
+    (runStep env fuel (.serialize [ruleA, ruleB]) g).obs = [.levels [0, 1]] := by
   simp only [runStep, h0]
   decide
 
-/-- … and with the preference off nothing is carried over (the guard of `history_independent_partial`) -/
-theorem indent_specificities_off_is_stateless (env : Env) (fuel : Nat) (rules : List SelRec) (g : G)
-    (hi : g.ser.indentSpec = false) :
-    (runStep env fuel (.serialize rules) g).g.ser = g.ser := by
-  simp only [runStep]
-  exact serializeRules_off g.ser rules hi
-
 /-! non-vacuity of the hypotheses used above -/
-example : quiet (.parseString ⟨true⟩ .bytesBad [.log false, .imp [.parseStyle ⟨false⟩ .str []] (.raises (.user false)) [],
-    .pp 0 (.tkz false [])]) = true := by decide
-example : quiet (.combine (.parseUrl ⟨false⟩ [] .content .bytesOk [.log true]) [.log false] [.serialize [ruleA]]) = true := by
+example : quiet (.parseString (.obj 0) (some false) .bytesBad [.log false,
+    .imp [.parseStyle (.fresh ⟨false, true⟩) none .str []] (.raises (.user false)) [], .pp 0 (.tkz false [])]) = true := by
+  decide
+example : quiet (.combine (.parseUrl (.fresh ⟨false, true⟩) none [] .content .bytesOk [.log true]) [.log false]
+    [.serialize [ruleA]]) = true := by
   decide
 example : topOK mediaEnv (.direct [.pp 0 (.lst [])]) = true ∧ topOK mediaEnv (.direct [.pp 1 (.lst [])]) = false := by
   decide
